@@ -29,6 +29,7 @@ TRACE_INVS = {
     "C12": ["InvC12s", "InvC12"],
     "C13": ["InvC13", "InvStruct"],
     "C14": ["InvC14", "InvC04x"],
+    "C15": ["InvC15", "InvC04x", "InvC12"],
     "C18": ["InvC18", "InvCap"],
     "C19": ["InvC19"],
     "C20": ["InvC20"],
@@ -343,8 +344,35 @@ def check_C13(ctx):
 
 
 def check_C14(ctx):
-    exec_family(ctx, "C14", extra=["--ppanic", 0.6, "--modes", "disp,par,seq,disp"], mc=("flat", "tl"),
+    exec_family(ctx, "C14", extra=["--ppanic", 0.6, "--modes", "disp,par,seq,disp", "--ptl", 0.15, "--dispatches", 4], mc=("flat", "tl"),
                 mc_thorough=("flat2", "batch", "deps"))
+
+
+def check_C15(ctx):
+    (ns, nt, mc) = (3, 2, 6) if ctx.quick() else (4, 2, 8)
+    cfg = "\n".join(["SPECIFICATION Fair", "CHECK_DEADLOCK FALSE", "CONSTANTS", "  NSys = %d" % ns, "  NTl = %d" % nt,
+                     "  MaxCalls = %d" % mc, "INVARIANTS", "  InvC15owned", "  InvC15running", "  InvC15noOverlap", "  InvC15tl",
+                     "PROPERTIES", "  RunningAction", "  CallsReturn"]) + "\n"
+    res = tlc_mc(ctx, "Async", cfg)
+    if res["violated"]:
+        raise ToolError("the Async MODEL violates %s" % res["violated"])
+    ctx.cov["states"] += res["distinct"]
+    ctx.cov["transitions"] += res["states"]
+    ctx.cov["model_runs"].append({"module": "Async", "constants": {"NSys": ns, "NTl": nt, "MaxCalls": mc},
+                                  "invariants": ["InvC15owned", "InvC15running", "InvC15noOverlap", "InvC15tl", "RunningAction", "CallsReturn (liveness, fair)"],
+                                  "states_generated": res["states"], "distinct": res["distinct"], "wall_s": res["wall_s"], "exhaustive": True})
+    invs = ["InvC15", "InvC04x", "InvC12"]
+    for (cnt, calls, off) in ([(60, 12, 0)] if ctx.quick() else [(600, 16, 0), (100, 30, 1)]):
+        out = ctx.fresh("as", "ndjson")
+        st = run_bin(ctx, "exec", ["async", "--seed", ctx.seed * 1000 + off, "--count", cnt, "--calls", calls, "--out", out], timeout=1800)
+        ctx.cov["impl_runs"].append({"kind": "impl->spec async dispatcher sessions (caller call sequences, background systems held inside run)",
+                                     "programs": st["programs"], "calls": st["calls"], "events": st["events"]})
+        ctx.cov["traces_validated_against_impl"] += st["programs"]
+        for x in st["samples"][:1]:
+            ctx.sample({"kind": "async session", "case": x})
+        validate_blocks(ctx, "ShredTrace", out, invs, classify=classify_block)
+    ctx.assumptions += ["caller calls are logged before and after the real call from the calling thread; background systems log under the same mutex",
+                        "no claim about how soon running() turns false after the last system"]
 
 
 def check_C18(ctx):
@@ -359,13 +387,13 @@ def check_C18(ctx):
         planner_i2s(ctx, invs, count=60, nmin=4, nmax=40, nres=6, extra=["--pill", 0.2])
         planner_i2s(ctx, invs, count=6, nmin=150, nmax=400, nres=10, extra=["--pill", 0.03], seed_off=1)
         # funnel: many conflicting systems with all running-time hints over very few resources
-        planner_i2s(ctx, invs, count=30, nmin=20, nmax=80, nres=2, extra=["--pdep", 0.05], seed_off=2)
+        planner_i2s(ctx, invs, count=30, nmin=20, nmax=80, nres=2, extra=["--pdep", 0.05, "--funnel", 300], seed_off=2)
     else:
         r = planner_mc(ctx, planner_consts(3, "{1,2}", "{1,3,5}", 2, unnamed=True), PLANNER_INVS["C18"], label="t1")
         planner_s2i(ctx, r["replay"], invs, variants=1)
         planner_i2s(ctx, invs, count=600, nmin=4, nmax=60, nres=6, extra=["--pill", 0.2])
         planner_i2s(ctx, invs, count=40, nmin=150, nmax=500, nres=10, extra=["--pill", 0.03], seed_off=1)
-        planner_i2s(ctx, invs, count=300, nmin=20, nmax=120, nres=2, extra=["--pdep", 0.05], seed_off=2)
+        planner_i2s(ctx, invs, count=300, nmin=20, nmax=120, nres=2, extra=["--pdep", 0.05, "--funnel", 5000], seed_off=2)
     ctx.assumptions.append("panic messages are classified by their text (No such system registered / Cannot insert multiple systems)")
 
 
@@ -430,6 +458,7 @@ CHECKS = {
     "C12": check_C12,
     "C13": check_C13,
     "C14": check_C14,
+    "C15": check_C15,
     "C18": check_C18,
     "C19": check_C19,
     "C10": check_C10,
